@@ -71,9 +71,12 @@ namespace occa {
   }
 
   memory& memory::swap(memory &m) {
-    modeMemory_t *modeMemory_ = modeMemory;
-    modeMemory   = m.modeMemory;
-    m.modeMemory = modeMemory_;
+    // Each handle is an entry in the reference ring of the object it points to,
+    // so the handles have to be re-registered, not only the pointers exchanged.
+    // The temporary keeps our object alive while it has no other reference.
+    memory tmp(*this);
+    setModeMemory(m.modeMemory);
+    m.setModeMemory(tmp.modeMemory);
     return *this;
   }
 
